@@ -13,6 +13,7 @@ use std::panic::{catch_unwind, AssertUnwindSafe};
 
 use embedded_cli::{
     arguments::Arg,
+    buffer::Buffer,
     cli::{Cli, CliBuilder, CliHandle},
     command::RawCommand,
     service::{CommandProcessor, ProcessError},
@@ -165,7 +166,7 @@ impl CommandProcessor<Sink, SinkError> for RawHandler<'_> {
     }
 }
 
-fn project(cli: &TestCli) -> Value {
+fn project<CB: Buffer, HB: Buffer>(cli: &Cli<Sink, SinkError, CB, HB>) -> Value {
     let (line, cur) = cli.__verif_line();
     #[allow(unused_mut)]
     let mut hist: Vec<Value> = vec![];
@@ -189,7 +190,7 @@ fn project(cli: &TestCli) -> Value {
     })
 }
 
-fn raw_state(cli: &TestCli) -> Value {
+fn raw_state<CB: Buffer, HB: Buffer>(cli: &Cli<Sink, SinkError, CB, HB>) -> Value {
     let dec = cli.__verif_decoder().map(|(csi, last, buf, partial, expected)| {
         json!({"csi": csi, "last": last, "buf": buf.to_vec(), "partial": partial, "expected": expected})
     });
@@ -216,7 +217,7 @@ fn leak(n: usize) -> &'static mut [u8] {
 }
 
 #[allow(clippy::too_many_arguments)]
-fn record(
+fn record<CB: Buffer, HB: Buffer>(
     ev: &str,
     sid: i64,
     i: usize,
@@ -228,7 +229,7 @@ fn record(
     sink: &Sink,
     res_ok: bool,
     calls: Vec<Value>,
-    cli: Option<&TestCli>,
+    cli: Option<&Cli<Sink, SinkError, CB, HB>>,
     opts: &RunOpts,
 ) -> Value {
     let ops = sink.take_ops();
@@ -279,21 +280,10 @@ fn run_session<S: CmdSet>(script: &Value, out: &mut dyn FnMut(Value), opts: &Run
     let partial = cfg["partial"].as_u64().unwrap_or(0);
     let poison = cfg["poison"].as_bool().unwrap_or(false);
     let via_processor = cfg["rawproc"].as_bool().unwrap_or(false);
-    let empty_hs = HandlerScript {
-        chunks: vec![],
-        prompt: -1,
-    };
-
     let sink = Sink::new();
     sink.set_partial(partial);
     let (fail_at, fail_mode) = parse_fail(script["cfg"].get("fail"));
     sink.begin_call(fail_at, fail_mode);
-    let built = CliBuilder::default()
-        .writer(sink.clone())
-        .command_buffer(leak(cmd))
-        .history_buffer(leak(hcap))
-        .prompt(PROMPTS[prompt_idx])
-        .build();
 
     let typed_id = cfg["decl"].as_str().map(|s| s.to_string());
     let typed_feed = typed_id.as_deref().and_then(crate::gen_cmds::feed_for);
@@ -302,34 +292,119 @@ fn run_session<S: CmdSet>(script: &Value, out: &mut dyn FnMut(Value), opts: &Run
     } else {
         S::NAMES.iter().map(|n| json!(n.as_bytes())).collect()
     };
+    // how the Cli is constructed: "slices" (builder, &mut [u8] buffers of the requested sizes),
+    // "default" (builder defaults: [u8; 40] / [u8; 100] arrays, prompt "$ "),
+    // "arrays" (builder with [u8; 5] / [u8; 9] arrays), "new" (deprecated Cli::new, [u8; 12] / [u8; 20])
+    let ctor = cfg["ctor"].as_str().unwrap_or("slices").to_string();
+    let (cmd, hcap, prompt): (usize, usize, &'static str) = match ctor.as_str() {
+        "default" => (40, 100, "$ "),
+        "arrays" => (5, 9, PROMPTS[prompt_idx]),
+        "new" => (12, 20, "$ "),
+        _ => (cmd, hcap, PROMPTS[prompt_idx]),
+    };
     let cfg_json = json!({
         "cmd": cmd,
         "hcap": hcap,
         "set": typed_id.clone().unwrap_or_else(|| S::ID.to_string()),
         "names": names,
-        "prompt": PROMPTS[prompt_idx].as_bytes(),
+        "prompt": prompt.as_bytes(),
         "hist": cfg!(feature = "history"),
         "ac": cfg!(feature = "autocomplete"),
         "help": cfg!(feature = "help"),
         "partial": partial != 0,
+        "ctor": ctor,
     });
+    let common = Common {
+        sid,
+        prompt,
+        poison,
+        via_processor,
+        fail0: (fail_at, fail_mode),
+        cfg_json,
+    };
+    match ctor.as_str() {
+        "default" => {
+            let built = CliBuilder::default().writer(sink.clone()).build();
+            drive::<S, _, _>(built, None, script, &sink, &common, out, opts)
+        }
+        "arrays" => {
+            let built = CliBuilder::default()
+                .writer(sink.clone())
+                .command_buffer([0u8; 5])
+                .history_buffer([0u8; 9])
+                .prompt(prompt)
+                .build();
+            drive::<S, _, _>(built, None, script, &sink, &common, out, opts)
+        }
+        "new" => {
+            #[allow(deprecated)]
+            let built = Cli::new(sink.clone(), [0u8; 12], [0u8; 20]);
+            drive::<S, _, _>(built, None, script, &sink, &common, out, opts)
+        }
+        _ => {
+            let built = CliBuilder::default()
+                .writer(sink.clone())
+                .command_buffer(leak(cmd))
+                .history_buffer(leak(hcap))
+                .prompt(prompt)
+                .build();
+            match typed_feed {
+                Some(feed) => {
+                    let f = move |cli: &mut TestCli, b: u8, ctx: &mut crate::typed::TypedCtx| feed(cli, b, ctx, false);
+                    drive::<S, _, _>(built, Some(&f), script, &sink, &common, out, opts)
+                }
+                None => drive::<S, _, _>(built, None, script, &sink, &common, out, opts),
+            }
+        }
+    }
+}
 
-    let mut cli: TestCli = match built {
+struct Common {
+    sid: i64,
+    prompt: &'static str,
+    poison: bool,
+    via_processor: bool,
+    fail0: (usize, FailMode),
+    cfg_json: Value,
+}
+
+type TypedFeed<'f, CB, HB> = Option<
+    &'f dyn Fn(&mut Cli<Sink, SinkError, CB, HB>, u8, &mut crate::typed::TypedCtx) -> Result<(), SinkError>,
+>;
+
+fn drive<S: CmdSet, CB: Buffer, HB: Buffer>(
+    built: Result<Cli<Sink, SinkError, CB, HB>, SinkError>,
+    typed_feed: TypedFeed<'_, CB, HB>,
+    script: &Value,
+    sink: &Sink,
+    common: &Common,
+    out: &mut dyn FnMut(Value),
+    opts: &RunOpts,
+) {
+    let sid = common.sid;
+    let poison = common.poison;
+    let via_processor = common.via_processor;
+    let (fail_at, fail_mode) = common.fail0;
+    let empty_hs = HandlerScript {
+        chunks: vec![],
+        prompt: -1,
+    };
+    let mut cli = match built {
         Ok(cli) => {
             let mut rec = record(
-                "init", sid, 0, -1, &[], PROMPTS[prompt_idx].as_bytes(), &empty_hs,
-                (fail_at, fail_mode), &sink, true, vec![], Some(&cli), opts,
+                "init", sid, 0, -1, &[], common.prompt.as_bytes(), &empty_hs,
+                (fail_at, fail_mode), sink, true, vec![], Some(&cli), opts,
             );
-            rec["cfg"] = cfg_json;
+            rec["cfg"] = common.cfg_json.clone();
             out(rec);
             cli
         }
         Err(_) => {
-            let mut rec = record(
-                "init", sid, 0, -1, &[], PROMPTS[prompt_idx].as_bytes(), &empty_hs,
-                (fail_at, fail_mode), &sink, false, vec![], None, opts,
+            let mut rec = record::<CB, HB>(
+                "init", sid, 0, -1, &[], common.prompt.as_bytes(), &empty_hs,
+                (fail_at, fail_mode), sink, false, vec![], None, opts,
             );
-            rec["cfg"] = cfg_json;
+            rec["cfg"] = common.cfg_json.clone();
             out(rec);
             return;
         }
@@ -358,7 +433,7 @@ fn run_session<S: CmdSet>(script: &Value, out: &mut dyn FnMut(Value), opts: &Run
                         script: hs.clone(),
                         sink: sink.clone(),
                     };
-                    let r = feed(&mut cli, b, &mut tctx, false);
+                    let r = feed(&mut cli, b, &mut tctx);
                     calls = std::mem::take(&mut tctx.raw_calls);
                     if tctx.calls.is_empty() {
                         // the line was rejected by the derived parser: the application's
